@@ -220,7 +220,116 @@ fn gen_case(rng: &mut Rng, corpus: &Corpus) -> Case {
 }
 
 fn case_json(c: &Case) -> Value {
-    json!({"files": c.files.iter().map(|(n, t)| json!([n, t])).collect::<Vec<_>>(), "version": c.version, "strict": c.strict, "family": c.family})
+    // signature the driver uses if the worker dies on this case (a stack overflow escapes catch_unwind): the
+    // kinds of self-referential declarations the case contains — the open finding of this property is about
+    // exactly those, an abort of a case without any is always a new violation
+    let abort_sig = format!("C12:abort:stack-overflow:recursive-decls={}", recursive_decl_class(&c.files));
+    json!({"files": c.files.iter().map(|(n, t)| json!([n, t])).collect::<Vec<_>>(), "version": c.version, "strict": c.strict, "family": c.family, "abort_sig": abort_sig})
+}
+
+/// "alias-self", "class-cycle", "alias-class-same-name" (joined by '+') or "none".
+fn recursive_decl_class(files: &[(String, String)]) -> String {
+    use std::collections::{BTreeMap, BTreeSet};
+    let word = |s: &str| -> String { s.chars().take_while(|c| c.is_alphanumeric() || *c == '_' || *c == '.').collect() };
+    let has_word = |hay: &str, w: &str| -> bool {
+        let mut i = 0;
+        while let Some(p) = hay[i..].find(w) {
+            let s = i + p;
+            let e = s + w.len();
+            let before = hay[..s].chars().next_back().map(|c| c.is_alphanumeric() || c == '_').unwrap_or(false);
+            let after = hay[e..].chars().next().map(|c| c.is_alphanumeric() || c == '_').unwrap_or(false);
+            if !before && !after {
+                return true;
+            }
+            i = e;
+        }
+        false
+    };
+    let mut aliases: BTreeSet<String> = BTreeSet::new();
+    let mut classes: BTreeMap<String, Vec<String>> = BTreeMap::new();
+    let mut alias_self = false;
+    let mut alias_bodies: Vec<(String, String)> = Vec::new();
+    for (_, t) in files {
+        for line in t.lines() {
+            let l = line.trim_start();
+            if let Some(rest) = l.strip_prefix("---@alias") {
+                let rest = rest.trim_start();
+                let name = word(rest);
+                if name.is_empty() {
+                    continue;
+                }
+                let body = &rest[name.len()..];
+                // skip the generic parameter list
+                let body = if body.starts_with('<') { body.split_once('>').map(|x| x.1).unwrap_or("") } else { body };
+                if has_word(body, &name) {
+                    alias_self = true;
+                }
+                alias_bodies.push((name.clone(), body.to_string()));
+                aliases.insert(name);
+            } else if let Some(rest) = l.strip_prefix("---@class").or_else(|| l.strip_prefix("---@enum")) {
+                let rest = rest.trim_start();
+                let rest = if rest.starts_with('(') { rest.split_once(')').map(|x| x.1.trim_start()).unwrap_or("") } else { rest };
+                let name = word(rest);
+                if name.is_empty() {
+                    continue;
+                }
+                let after = &rest[name.len()..];
+                let after = if after.starts_with('<') { after.split_once('>').map(|x| x.1).unwrap_or("") } else { after };
+                let supers: Vec<String> = after.trim_start().strip_prefix(':').map(|s| s.split(',').map(|x| word(x.trim())).filter(|x| !x.is_empty()).collect()).unwrap_or_default();
+                classes.entry(name).or_default().extend(supers);
+            }
+        }
+    }
+    // aliases that reach themselves through other aliases (`R<T> = Q<T>`, `Q<T> = … R<T[]> …`)
+    for (start, _) in &alias_bodies {
+        let mut seen = BTreeSet::new();
+        let mut stack = vec![start.clone()];
+        while let Some(n) = stack.pop() {
+            for (a, body) in &alias_bodies {
+                if *a != n {
+                    continue;
+                }
+                for (b, _) in &alias_bodies {
+                    if has_word(body, b) {
+                        if b == start {
+                            alias_self = true;
+                        }
+                        if seen.insert(b.clone()) {
+                            stack.push(b.clone());
+                        }
+                    }
+                }
+            }
+        }
+    }
+    // cycle in the super-class relation
+    let mut cycle = false;
+    for start in classes.keys() {
+        let mut seen = BTreeSet::new();
+        let mut stack = vec![start.clone()];
+        while let Some(n) = stack.pop() {
+            for s in classes.get(&n).cloned().unwrap_or_default() {
+                if &s == start {
+                    cycle = true;
+                }
+                if seen.insert(s.clone()) {
+                    stack.push(s);
+                }
+            }
+        }
+    }
+    let clash = aliases.iter().any(|a| classes.contains_key(a));
+    let mut v = Vec::new();
+    if alias_self {
+        v.push("alias-self");
+    }
+    if cycle {
+        v.push("class-cycle");
+    }
+    if clash {
+        v.push("alias-class-same-name");
+    }
+    if v.is_empty() { "none".into() } else { v.join("+") }
 }
 
 fn case_from(v: &Value) -> Case {
